@@ -50,7 +50,18 @@ type Scheme struct {
 }
 
 func (s *Scheme) SetStoredData(d []byte) {
+	s.lock.Lock()
+	defer s.lock.Unlock()
+
 	s.StoredData = d
+}
+
+// storedData returns the share data last installed; sessions may start while the application installs new share data.
+func (s *Scheme) storedData() []byte {
+	s.lock.RLock()
+	defer s.lock.RUnlock()
+
+	return s.StoredData
 }
 
 func (s *Scheme) HandleMessage(msg *IncMessage) {
@@ -438,7 +449,7 @@ func (s *Scheme) ensureDKGNotRunning() error {
 
 func (s *Scheme) ThresholdPK() ([]byte, error) {
 	signer := s.SignerFactory(uint16(s.SelfID))
-	if err := signer.SetShareData(s.StoredData); err != nil {
+	if err := signer.SetShareData(s.storedData()); err != nil {
 		s.Logger.Errorf("Failed setting share data: %v", err)
 		return nil, err
 	}
@@ -668,7 +679,7 @@ func (s *Scheme) prepareSigning(ctx context.Context, membership *membership, par
 		panic("Programming error: we shouldn't have gotten to a situation with two concurrent signing with the same topic")
 	}
 
-	return signingProtocol, signingProtocol.SetShareData(s.StoredData)
+	return signingProtocol, signingProtocol.SetShareData(s.storedData())
 }
 
 func (s *Scheme) initializeDKG(dkg KeyGenerator, threshold int, members []UniversalID, parties []PartyID, membership *membership) error {
@@ -692,7 +703,7 @@ func (s *Scheme) initializeDKG(dkg KeyGenerator, threshold int, members []Univer
 
 func (s *Scheme) initializeThresholdSigning(membership *membership, parties []PartyID, topicHash []byte, signers []UniversalID) (Signer, error) {
 	signer := s.SignerFactory(uint16(s.SelfID))
-	if err := signer.SetShareData(s.StoredData); err != nil {
+	if err := signer.SetShareData(s.storedData()); err != nil {
 		s.Logger.Errorf("Failed setting share data: %v", err)
 		return nil, err
 	}
